@@ -3,7 +3,7 @@ import ast
 
 from ..astx import (calls_in, dotted, norm, src, iter_nodes, assigned_targets, assigned_names,
                     const_value, is_const, parent_chain)
-from ..lib import (cfg_nodes_with_call, node_calls, returns, raises, raised_class, stmt_assigns_attr, callee_last,
+from ..lib import (call_arg, relation, truth, other, cmp_views, core, holds_region, conditions, eval_conditions, relation_tests, atom_key, expand_condition, mode_mismatch_conditions, cfg_nodes_with_call, node_calls, returns, raises, raised_class, stmt_assigns_attr, callee_last,
                    is_name, node_roots, guard_region, compare_parts, find_test_nodes)
 from ..linear import ctext
 from ..loader import AnalysisError
@@ -201,8 +201,11 @@ def check_eof(c, repo):
     ts = [x for x in g2.nodes if x.kind == 'test']
     c.need(len(ts) == 2, 'connection_lost: expected two tests')
     t1, t2 = sorted(ts, key=lambda x: x.id)
-    ok = isinstance(t1.ast, ast.BoolOp) and isinstance(t1.ast.op, ast.And) and sorted(norm(v) for v in t1.ast.values) == sorted(
-        ['isinstance(%s, OSError)' % p, '%s.errno == errno.EIO' % p])
+    def eio_operand(v):
+        r = relation(v)
+        return bool(r) and r[0] == 'eq' and r[3] == 'true' and {norm(r[1]), norm(r[2])} == {'%s.errno' % p, 'errno.EIO'}
+    ok = isinstance(t1.ast, ast.BoolOp) and isinstance(t1.ast.op, ast.And) and len(t1.ast.values) == 2 and \
+        any(norm(v) == 'isinstance(%s, OSError)' % p for v in t1.ast.values) and any(eio_operand(v) for v in t1.ast.values)
     k1 = [n for n in guard_region(g2, t1, 'true') if any(callee_last(k) == 'eof_received' for k in node_calls(n))]
     c.check(ok and len(k1) == 1, f2, t1.ast, 'a pty closing with EIO is treated as EOF', witness=norm(t1.ast), kind='ast', tag='eio-eof')
     k2 = [n for n in guard_region(g2, t2, 'true') if any(callee_last(k) == 'error' and k.args and is_name(k.args[0], p) for k in node_calls(n))]
